@@ -506,7 +506,7 @@ pub fn ev_recompress<K: Kmer + Send + Sync>(
     origin: &str,
 ) -> Option<Vec<NodeP>> {
     let desc = json!({"op":"recompress","K":inp.k,"st":inp.stranded,"mode":inp.mode.name(),
-        "reads":inp.reads,"g":nodes_json(g),"censor":censor,"fam":inp.fam,"origin":origin});
+        "reads":inp.reads,"g":nodes_json(g),"censor":censor,"fam":inp.fam,"origin":origin,"tips":origin.ends_with("tips")});
     let case = sink.begin_case(&desc);
     let res = guard(|| {
         let base = base_from_nodes::<K>(g, inp.stranded);
@@ -670,7 +670,11 @@ pub fn ev_graphq<K: Kmer + Send + Sync>(
         );
         let mps = g.sequence_of_path(mp.iter());
         let maxpath = json!({"p": mp.iter().map(|x| json!([x.0, dir_str(x.1)])).collect::<Vec<_>>(), "s": mer_bases(&mps)});
-        (pv, ev, paths, maxpath)
+        // beam search variant (its documented Cycle state may repeat the closing node)
+        let bp = g.max_path_beam(3, |d: &D| d.first().cloned().unwrap_or(0) as f32, |_d: &D| true);
+        let bps = g.sequence_of_path(bp.iter());
+        let beam = json!({"p": bp.iter().map(|x| json!([x.0, dir_str(x.1)])).collect::<Vec<_>>(), "s": mer_bases(&bps)});
+        (pv, ev, paths, maxpath, beam)
     });
     sink.end_case();
     let mut e = desc;
@@ -678,7 +682,8 @@ pub fn ev_graphq<K: Kmer + Send + Sync>(
     e.as_object_mut().unwrap().remove("walk_seeds");
     e["case"] = json!(case);
     match res {
-        Ok((pv, ev, paths, maxpath)) => {
+        Ok((pv, ev, paths, maxpath, beam)) => {
+            e["beam"] = beam;
             e["probes"] = json!(pv);
             e["edges"] = json!(ev);
             e["paths"] = json!(paths);
@@ -690,6 +695,7 @@ pub fn ev_graphq<K: Kmer + Send + Sync>(
             e["edges"] = json!([]);
             e["paths"] = json!([]);
             e["maxpath"] = json!({"p": [], "s": []});
+            e["beam"] = json!({"p": [], "s": []});
             e["panic"] = json!(msg);
         }
     }
